@@ -11,7 +11,8 @@ META = dict(
             'distances', 'one A-M-B line with Eqpt rows (symbolic gains, ILA or ROADM in the middle)',
             'one Service row: symbolic spacing, power, channel count, bandwidth, mode, route of <= 3 names, strictness, <= 2 disjoint entries',
             'one Links row with each per-direction attribute filled in / empty / absent / symbolic real (0 included); one Eqpt row with every '
-            'west cell filled in, zero or absent (324 patterns)'],
+            'west cell filled in, zero or absent (324 patterns)',
+            'route through in-line sites: line A - B(ILA) - [F(FUSED)] - [G(ILA)] - C, both directions, strict or loose'],
     assumptions=['the binary .xls/.xlsx readers (xlrd/openpyxl) and cell typing are outside the technique: rows are given in memory through '
                  'generic_open_workbook/get_sheet/parse_sheet', '"Not confirmed" = bounded bug hunting within the time box'],
     stubs=['convert.generic_open_workbook, convert.get_sheet, convert.parse_sheet -> in-memory rows'],
